@@ -741,6 +741,104 @@ theorem catSumItem_dflt (a : List Nat) :
     catSumItem.op (catSumItem.val catSumItem.dflt) a = a ∧ catSumItem.op a (catSumItem.val catSumItem.dflt) = a :=
   ⟨rfl, List.append_nil a⟩
 
+/-! ### `Ap`: add an arithmetic progression to a range — lawful, although `push` treats its children differently -/
+
+theorem optOr_assoc (a b c : Option Int) : optOr (optOr a b) c = optOr a (optOr b c) := by
+  cases a <;> rfl
+
+theorem apShift_op (base a d : Int) (x y : ApV) :
+    apShift base a d (apItem.op x y) = apItem.op (apShift base a d x) (apShift base a d y) := by
+  obtain ⟨s1, c1, q1, o1⟩ := x
+  obtain ⟨s2, c2, q2, o2⟩ := y
+  simp only [apShift, apItem, Prod.mk.injEq, and_true]
+  ring
+
+/-- two shifts after one another are one shift: what `apply` does to a pending tag -/
+theorem apShift_apply (x : Ap) (a d : Int) (v : ApV) :
+    apItem.pa (x.apply a d) v = apShift (x.lo.getD 0) a d (apItem.pa x v) := by
+  obtain ⟨s, c, q, o⟩ := v
+  simp only [apItem, apShift, Ap.apply, Prod.mk.injEq, and_true]
+  ring
+
+theorem ap_val_apply (x : Ap) (a d : Int) :
+    apItem.val (x.apply a d) = apShift (x.lo.getD 0) a d (apItem.val x) := rfl
+
+/-- re-basing: a progression given at `base` is the progression `a + d * (b' - base)` given at `b'` -/
+theorem apShift_rebase (base b' a d : Int) (v : ApV) :
+    apShift b' (a + d * (b' - base)) d v = apShift base a d v := by
+  obtain ⟨s, c, q, o⟩ := v
+  simp only [apShift, Prod.mk.injEq, and_true]
+  ring
+
+theorem apItem_lawful : Lawful apItem where
+  op_assoc := by
+    rintro ⟨s1, c1, q1, o1⟩ ⟨s2, c2, q2, o2⟩ ⟨s3, c3, q3, o3⟩
+    simp only [apItem, Prod.mk.injEq, optOr_assoc, and_true]
+    refine ⟨?_, ?_, ?_⟩ <;> ring
+  act_op := by intro m a b; exact apShift_op m.1 m.2.1 m.2.2 a b
+  pa_op := by intro x a b; exact apShift_op (x.lo.getD 0) x.ta x.td a b
+  val_merge := by intro x y; rfl
+  pa_merge := by
+    intro x y a; obtain ⟨s, c, q, o⟩ := a
+    simp [apItem, apShift]
+  val_update := by intro _ x y; rfl
+  pa_update := by
+    intro _ x y a; obtain ⟨s, c, q, o⟩ := a
+    simp [apItem, apShift]
+  val_modify := by
+    intro x m
+    show apItem.val (x.apply (m.2.1 + m.2.2 * (x.lo.getD 0 - m.1)) m.2.2) = apShift m.1 m.2.1 m.2.2 (apItem.val x)
+    rw [ap_val_apply, apShift_rebase]
+  pa_modify := by
+    intro x m a
+    show apItem.pa (x.apply (m.2.1 + m.2.2 * (x.lo.getD 0 - m.1)) m.2.2) a = apShift m.1 m.2.1 m.2.2 (apItem.pa x a)
+    rw [apShift_apply, apShift_rebase]
+  push_val0 := by intro p l r; rfl
+  push_pa0 := by
+    intro p l r a; obtain ⟨s, c, q, o⟩ := a
+    simp [apItem, apShift]
+  push_val1 := by
+    intro p l r
+    show apItem.val (l.apply (p.ta + p.td * (l.lo.getD 0 - p.lo.getD 0)) p.td) = apShift (p.lo.getD 0) p.ta p.td (apItem.val l)
+    rw [ap_val_apply, apShift_rebase]
+  push_pa1 := by
+    intro p l r a
+    show apItem.pa (l.apply (p.ta + p.td * (l.lo.getD 0 - p.lo.getD 0)) p.td) a = apShift (p.lo.getD 0) p.ta p.td (apItem.pa l a)
+    rw [apShift_apply, apShift_rebase]
+  push_val2 := by
+    intro p l r
+    show apItem.val (r.apply (p.ta + p.td * (r.lo.getD 0 - p.lo.getD 0)) p.td) = apShift (p.lo.getD 0) p.ta p.td (apItem.val r)
+    rw [ap_val_apply, apShift_rebase]
+  push_pa2 := by
+    intro p l r a
+    show apItem.pa (r.apply (p.ta + p.td * (r.lo.getD 0 - p.lo.getD 0)) p.td) a = apShift (p.lo.getD 0) p.ta p.td (apItem.pa r a)
+    rw [apShift_apply, apShift_rebase]
+
+/-- The `push` of the harness's Rust item (`left.apply(ta, td); right.apply(ta + td * left.len, td)`) IS the model's
+    `push` whenever the left child starts where the node starts and the right child starts `left.len` positions later —
+    at every node of a tree whose `i`-th element has position `i`. -/
+theorem ap_push_code_eq (p l r : Ap) (q : Int) (hp : p.lo = some q) (hl : l.lo = some q) (hr : r.lo = some (q + l.len)) :
+    apPushCode p l r = apItem.push p l r := by
+  have e : q + l.len - q = l.len := by omega
+  simp only [apPushCode, apItem, hp, hl, hr, Option.getD_some, Int.sub_self, Int.mul_zero, Int.add_zero, e]
+
+/-- … and with the children swapped (what a `push_at` / `Combinator::push` that hands them over in the wrong order makes of
+    it) it is not: the progression restarts in the right half. -/
+theorem ap_push_code_swapped_differs :
+    let p : Ap := ⟨0, 2, 1, some 0, 1, 1⟩
+    let l := apLeaf 0 0
+    let r := apLeaf 1 0
+    apPushCode p l r = apItem.push p l r ∧
+    ((apPushCode p r l).2.2, (apPushCode p r l).2.1) ≠ ((apItem.push p l r).2.1, (apItem.push p l r).2.2) := by
+  decide
+
+theorem apItem_dflt (a : ApV) :
+    apItem.op (apItem.val apItem.dflt) a = a ∧ apItem.op a (apItem.val apItem.dflt) = a := by
+  obtain ⟨s, c, q, o⟩ := a
+  constructor
+  · simp [apItem, optOr]
+  · cases o <;> simp [apItem, optOr]
+
 /-! ### the float formats: the constants the driver prints are the IEEE bit patterns -/
 
 theorem f64_consts : f64Fmt.maxBits = 0x7FEFFFFFFFFFFFFF ∧ f64Fmt.minBits = 0xFFEFFFFFFFFFFFFF ∧
